@@ -419,3 +419,71 @@ pub fn pwb_baseline<const N: usize>() {
         check!(*v == Some((s / 64) as i16), "C01:pwb-baseline:value");
     }
 }
+
+// ---- run-number gates of the position maps ----------------------------------
+//
+// The maps live in lazy_static HashMaps. With the hasher seed fixed (stub of
+// `RandomState::new`, instances of this family only) and a CONCRETE key, the
+// table construction and the lookup are concrete computations; the run number
+// stays symbolic, so the `match run_number` arms are decided for all 2^32 runs.
+
+/// Replacement for `std::hash::RandomState::new` (fixed SipHash keys).
+pub fn fixed_random_state() -> std::hash::RandomState {
+    // RandomState is { k0: u64, k1: u64 }
+    unsafe { core::mem::transmute::<(u64, u64), std::hash::RandomState>((0x0123_4567_89ab_cdef, 0x0f1e_2d3c_4b5a_6978)) }
+}
+
+/// PadWing board `NAME` (two ASCII digits as a number, e.g. 44) for every run:
+/// error before 4418; the 4418 map for 4418..10418 and for the simulation run
+/// u32::MAX; the 10418 map from 10418 on. `P4418` / `P10418`: expected
+/// column*8+row in that map, or -1 when the board is not installed in it.
+pub fn run_gate_pwb<const NAME: usize, const P4418: i32, const P10418: i32>() {
+    let name = [b'0' + (NAME / 10) as u8, b'0' + (NAME % 10) as u8];
+    let board = alpha_g_detector::padwing::BoardId::try_from(core::str::from_utf8(&name).unwrap()).unwrap();
+    let run = sym::u32();
+    let r = TpcPwbPosition::try_new(run, board);
+    let want = if run < 4418 {
+        -1
+    } else if run < 10418 || run == u32::MAX {
+        P4418
+    } else {
+        P10418
+    };
+    witness!(run == 10417, "last-run-of-the-first-map");
+    witness!(run == u32::MAX, "simulation-run");
+    let got = match &r {
+        Ok(p) => {
+            let mut v = -1;
+            let mut c = 0;
+            while c < 8 {
+                let mut w = 0;
+                while w < 8 {
+                    if Some(p.column()) == TpcPwbColumn::try_from(c).ok() && Some(p.row()) == TpcPwbRow::try_from(w).ok() {
+                        v = (c * 8 + w) as i32;
+                    }
+                    w += 1;
+                }
+                c += 1;
+            }
+            v
+        }
+        Err(_) => -1,
+    };
+    check!(got == want, "C08:run-gate:pwb-position");
+    std::mem::forget(r);
+}
+
+/// Alpha16 board `BK` (row of the documented table), channel `CH`: error before
+/// run 2941, wire `WIRE` from then on and for the simulation run.
+pub fn run_gate_wire<const BK: usize, const CH: u8, const WIRE: usize>() {
+    let board = alpha_g_detector::alpha16::BoardId::try_from(ALPHA16_MACS[BK]).unwrap();
+    let ch = Adc32ChannelId::try_from(CH).unwrap();
+    let run = sym::u32();
+    let r = TpcWirePosition::try_new(run, board, ch);
+    witness!(run == 2941, "first-run-with-a-map");
+    check!(r.is_ok() == (run >= 2941), "C08:run-gate:wire-iff");
+    if let Ok(w) = &r {
+        check!(usize::from(*w) == WIRE, "C08:run-gate:wire-position");
+    }
+    std::mem::forget(r);
+}
